@@ -153,7 +153,114 @@ def correspondence(ctx):
                 "fitting-stage readers vs independent tree evaluator at 6 generic points; non-trivial = tree with more than one node")
 
 
+def corr_generated_nts(ctx):
+    """the function generated from generator.node_to_string (Gen/GenNodeStr.v) against the real one on raw node arrays: arrays of
+    real shapes, and corrupted ones (dangling / None / out-of-range child indices, wrong types, short label lists) on which the
+    real code raises -- the generated code must then return None; cyclic arrays (RecursionError) are skipped (fuel)"""
+    rep = ctx.report
+    rng = esrv.rng(ctx.seed, "C02/nts-arrays")
+    names = ["x", "a0", "a1", "inv", "exp", "sqrt_abs", "+", "*", "-", "/", "pow"]
+
+    def rand_shape(n):
+        # random prefix code of a unary-binary tree with n nodes
+        while True:
+            s, need = [], 1
+            for k in range(n):
+                rest = n - k - 1
+                opts = [a for a in (0, 1, 2) if 0 <= need - 1 + a <= rest and (need - 1 + a > 0 or rest == 0)]
+                if not opts:
+                    break
+                a = rng.choice(opts)
+                s.append(a)
+                need += a - 1
+            if len(s) == n and need == 0:
+                return s
+
+    def arrays(s):
+        nodes = [[t, None, None] for t in s]
+        stack = []
+        for i, t in enumerate(s):
+            if stack:
+                p = stack[-1]
+                if nodes[p][1] is None:
+                    nodes[p][1] = i
+                else:
+                    nodes[p][2] = i
+                if (s[p] == 1) or (s[p] == 2 and nodes[p][2] is not None):
+                    stack.pop()
+                    while stack and ((s[stack[-1]] == 1 and nodes[stack[-1]][1] is not None) or
+                                     (s[stack[-1]] == 2 and nodes[stack[-1]][2] is not None)):
+                        stack.pop()
+            if t > 0:
+                stack.append(i)
+        return nodes
+    cases = [{"idx": 0, "nodes": [], "labels": []}, {"idx": None, "nodes": [], "labels": []}]
+    for _ in range(150 if ctx.quick else 1500):
+        n = rng.randint(1, 7)
+        s = rand_shape(n)
+        nodes = arrays(s)
+        labels = [rng.choice(names) for _ in range(n)]
+        idx = 0
+        r = rng.random()
+        if r < 0.45:
+            pass
+        elif r < 0.6 and n > 1:
+            k = rng.randrange(n)
+            nodes[k][rng.choice([1, 2])] = rng.choice([None, n + 3, k + 1 if k + 1 < n else None])
+        elif r < 0.7:
+            labels = labels[:rng.randrange(n)]
+        elif r < 0.8:
+            nodes[rng.randrange(n)][0] = rng.choice([0, 1, 2, 3])
+        elif r < 0.9:
+            idx = rng.choice([None, n, rng.randrange(n)])
+        else:
+            nodes = nodes[:rng.randrange(n)] or nodes
+        cases.append({"idx": idx, "nodes": nodes, "labels": labels})
+    rc, out, err = esrv.run_py(ctx.scratch, IMPL, ["nts_arrays"], stdin=json.dumps(cases), timeout=600)
+    if rc != 0:
+        rep.fail("broken-correspondence", "node_to_string array driver failed", "C02:nts-arrays-driver", observed=err[-1200:], theorem="C02_code_node_to_string tie")
+        return
+    ans = json.loads(out)
+
+    def on(v):
+        return "None" if v is None else "(Some %d)" % v
+    terms = []
+    kept = []
+    for c, a in zip(cases, ans):
+        if a[0] == "loop" or any(isinstance(v, int) and v < 0 for nd in c["nodes"] for v in nd[1:] if v is not None):
+            continue
+        want = {"str": "Some (Some %s)" % coq_str(a[1]) if a[0] == "str" else None, "none": "Some None", "raise": "None"}[a[0]]
+        nodes = "[" + "; ".join("mkNode %d None %s %s" % (nd[0], on(nd[1]), on(nd[2])) for nd in c["nodes"]) + "]"
+        terms.append("oeq (GenNodeStr.node_to_string 40 %s %s [%s]) (%s)" % (on(c["idx"]), nodes, "; ".join(coq_str(l) for l in c["labels"]), want))
+        kept.append((c, a))
+    v = ("From Coq Require Import String List.\nFrom ESRV Require Import Common.Corr Model.Shapes.\nFrom ESRV Require Gen.GenNodeStr.\nImport ListNotations.\nOpen Scope string_scope.\n"
+         "Definition oeq (a b : option (option string)) : bool := match a, b with None, None => true | Some None, Some None => true "
+         "| Some (Some x), Some (Some y) => String.eqb x y | _, _ => false end.\n"
+         "Definition cases : list bool := [%s].\nEval vm_compute in (\"NTSA\", failing (fun b => b) cases).\n" % ";\n".join(terms))
+    rc, o = esrv.coq_run(v, name="C02nts")
+    flat = " ".join(o.split()).replace("%string", "")
+    for c, a in kept:
+        rep.case(key=("nts-array", json.dumps(c)[:120]), nontrivial=len(c["nodes"]) > 1)
+    rep.traces += len(kept)
+    if rc != 0 or '("NTSA", [])' not in flat:
+        bad = flat.split('("NTSA",', 1)[1][:200] if '("NTSA",' in flat else flat[-400:]
+        first = None
+        try:
+            k = int(bad.split("[", 1)[1].split("]")[0].split(";")[0])
+            first = {"case": kept[k][0], "real": kept[k][1]}
+        except Exception:
+            pass
+        rep.fail("broken-correspondence", "the generated node_to_string (Gen/GenNodeStr.v) and the real one differ on raw node arrays: %s" % bad,
+                 "C02:nts-arrays-corr", observed=first, theorem="translator nodestr.py / C02_code_node_to_string")
+
+
 def search(ctx):
+    try:
+        corr_generated_nts(ctx)
+    except Exception as e:
+        import traceback
+        ctx.report.fail("broken-correspondence", "node_to_string array correspondence crashed", "C02:nts-arrays-crash", observed=traceback.format_exc()[-1500:],
+                        theorem="C02_code_node_to_string tie")
     rep = ctx.report
     sys.path.insert(0, os.path.join(esrv.VERIF, "harness", "lib"))
     import liboracle as lo
